@@ -15,8 +15,8 @@ CLAIMS = {
  "C04": dict(text="Partial: theorems carry sortedness of merged centroids, the backlog bound, the greedy k-size invariant and the centroid bound for K0 over any ordered field; the rank-error bound c*W+2/n and the delta+3 bound for K1-K3 are NOT theorems - sampling experiment only.", design="7/C04, 9", technique=TS),
  "C05": dict(text="Partial beyond n=4k+1: exact uniformity P(position in reservoir)=k/n proved as a counting identity over all draw sequences for every k>=1, k<=n<=4k, and at the switch n=4k+1 (given the gap-zero fraction k/(4k+1), which the geometric-law lemma over the reals provides); skip semantics next = i+1+g. The size of the gap-sampling bias beyond 4k+1 is NOT a theorem - sampling experiment.", design="7/C05, 9", technique=TS),
  "C06": dict(text="Full for the model: merge/union equals processing both streams for Bloom, CMS, HLL (state equality; commutative, associative, idempotent where set-like), cuckoo (multiset sum when Ok) and quotient filter (set union when Ok).", design="7/C06", technique=T),
- "C07": dict(text="Partial: over the reals (same formula text as the Float code, class Transc) with_properties yields k,m >= 1 with k = max 1 floor(-log2 p), m = max 1 floor(-n ln p/ln^2 2); cuckoo sizing gives 2b/2^l <= p, n_buckets a power of two >= n/load, and for every hasher at most 2*len of the n_buckets*(2^l-1) (bucket, fingerprint) pairs answer true, hence rate <= (2/3)*load*p <= p under uniform pairs; a quotient filter answers true for exactly len of the 2^(q+r) pairs; Bloom len() envelope X/k <= len <= (X/k)(1+X/m) and X <= k*distinct. NOT theorems (sampling experiment over hasher seeds instead): the Bloom 1.3p rate, cuckoo no-Full-within-n, that real hashers behave uniformly.", design="7/C07, 9", technique=TS),
- "C08": dict(text="Partial: over the reals w = ceil(e/eps) >= e/eps, d = ceil(ln 1/delta) >= 1, exp(-d) <= delta; for every hasher and history the overestimate of x is the minimum over rows of the other elements' weight in x's cell, each row has fewer than 1/eps <= w/e cells above eps*N, and the number of column tuples bad in every row is < delta*w^d (so under independent uniform rows the guarantee holds for every stream, adversarial ones included). NOT a theorem: that enhanced double hashing over SipHash behaves like independent uniform rows - the (epsilon, delta) guarantee itself is checked by a sampling experiment with adversarial heavy hitters.", design="7/C08, 9", technique=TS),
+ "C07": dict(text="Partial: over the reals (same formula text as the Float code, class Transc) with_properties yields k,m >= 1 with k = max 1 floor(-log2 p), m = max 1 floor(-n ln p/ln^2 2); cuckoo sizing gives 2b/2^l <= p, n_buckets a power of two >= n/load, and for every hasher at most 2*len of the n_buckets*(2^l-1) (bucket, fingerprint) pairs answer true, hence rate <= (2/3)*load*p <= p under uniform pairs; a quotient filter answers true for exactly len of the 2^(q+r) pairs; Bloom len() envelope X/k <= len <= (X/k)(1+X/m) and X <= k*distinct. Also proved: two elements agreeing in h1 mod m and h2 mod m probe the same k positions, so one is a false positive once the other is inserted (root cause of the open known finding C07-bloom-double-hashing-floor: the Bloom rate has a floor of about n/m^2, above 1.3p for small p). NOT theorems (sampling experiment over hasher seeds instead): the Bloom 1.3p rate, cuckoo no-Full-within-n, that real hashers behave uniformly.", design="7/C07, 8, 9", technique=TS),
+ "C08": dict(text="Partial: over the reals w = ceil(e/eps) >= e/eps, d = ceil(ln 1/delta) >= 1, exp(-d) <= delta; for every hasher and history the overestimate of x is the minimum over rows of the other elements' weight in x's cell, each row has fewer than 1/eps <= w/e cells above eps*N, and the number of column tuples bad in every row is < delta*w^d (so under independent uniform rows the guarantee holds for every stream, adversarial ones included). Also proved: elements agreeing in h1 mod w and h2 mod w share every cell (root cause of the open known finding C08-double-hashing-floor). NOT a theorem: that enhanced double hashing over SipHash behaves like independent uniform rows - the (epsilon, delta) guarantee itself is checked by a sampling experiment with adversarial heavy hitters.", design="7/C08, 8, 9", technique=TS),
  "C09": dict(text="Full for the model: n = #adds, add reports new iff untracked, undercount invariant f <= true <= f+delta with delta+1 <= ceil(n/width), no miss / no intruder over the rationals for every threshold and epsilon >= 1/width, and the Manku-Motwani size bound width*H(ceil(n/width)) (sharper than the stated +1 form).", design="7/C09", technique=T),
  "C10": dict(text="Full for the model: add never panics (also 1x1 sketch), the two indexes stay consistent, iter yields min(k, distinct) distinct added elements, held counts are sandwiched true <= n <= true+E, a missing element is justified by k held elements within E, exact top-k when collision-free.", design="7/C10", technique=T),
  "C11": dict(text="Theorems: block arithmetic of the packed tables is tight (e*len <= 64*blocks < e*len+64) and container sizes are functions of the configuration; the tie below the API is a heap measurement with a counting allocator compared against the model's byte formula (exact for cuckoo/quotient tables) and against the documented sizes within 2x+slack for all nine structures across stream lengths, clear and failed operations.", design="7/C11", technique="Lean 4 theorems on block/size arithmetic + exact heap-byte correspondence (counting allocator) + measurement sweep"),
